@@ -18,6 +18,18 @@ pub struct Emit {
 }
 
 /// Shared well-formedness monitor for every frame a port emits. Returns decoded frames.
+/// A frame as the network hands it over: sometimes longer than messageLength (Ethernet minimum
+/// frame padding, a transport's trailer). The octets after the message are not part of it.
+fn padded(rng: &mut StdRng, rep: &mut Report, mut frame: Vec<u8>) -> Vec<u8> {
+    if rng.gen_bool(0.3) {
+        let n = [1usize, 2, 3, 6, 18, 46][rng.gen_range(0..6)];
+        let zero = rng.gen_bool(0.7);
+        frame.extend((0..n).map(|_| if zero { 0u8 } else { rng.gen() }));
+        rep.ev("request_frame_with_octets_after_the_message");
+    }
+    frame
+}
+
 pub fn check_emitted(
     rep: &mut Report,
     prop: &str,
@@ -277,7 +289,7 @@ pub fn run_case(rep: &mut Report, p: &Params) {
                 req.hdr.log_interval = rng.gen();
                 req.hdr.minor_version = rng.gen_range(0..16);
                 let t = lattice_time(&mut rng);
-                let acts = call!(Call::EventRx(req.encode(), time_from_units(t)), "Delay_Req receive");
+                let acts = call!(Call::EventRx(padded(&mut rng, rep, req.encode()), time_from_units(t)), "Delay_Req receive");
                 let em = check_emitted(rep, "C10", &acts, own, p.domain, p.sdo, &replay);
                 rep.ev("delay_req_resp_pair");
                 let rs: Vec<&Emit> = em.iter().filter(|e| e.msg.hdr.msg_type == T_DELAY_RESP).collect();
@@ -330,7 +342,7 @@ pub fn run_case(rep: &mut Report, p: &Params) {
                 req.hdr.src = Pid { clock: rng.gen(), port: rng.gen() };
                 req.hdr.flags = [rng.gen::<u8>() & DEFINED_FLAGS[0], rng.gen::<u8>() & DEFINED_FLAGS[1]];
                 let t2 = lattice_time(&mut rng);
-                let acts = call!(Call::EventRx(req.encode(), time_from_units(t2)), "Pdelay_Req receive");
+                let acts = call!(Call::EventRx(padded(&mut rng, rep, req.encode()), time_from_units(t2)), "Pdelay_Req receive");
                 let em = check_emitted(rep, "C10", &acts, own, p.domain, p.sdo, &replay);
                 rep.ev("pdelay_req_resp_pair");
                 if faulty_phase {
@@ -433,7 +445,7 @@ fn run_slave_seq(rep: &mut Report, n: u32, seed: u64) {
 
 pub fn run(rep: &mut Report, tier: &str, seed: u64, shard: (u32, u32), replay: Option<&str>) {
     rep.rule = "histories of master-port operations (Sync+timestamp, Delay_Req, Announce, Pdelay_Req+timestamp, Pdelay_Req timer) with lattice/random 80-bit timestamps, correction fields and request headers; every emitted frame decoded; distinct = distinct (configuration, seed) histories; non-trivial = every operation emitted at least one frame".into();
-    rep.require(&["emitted_frame", "sync_followup_pair", "delay_req_resp_pair", "pdelay_req_resp_pair", "seq_Sync", "seq_Announce", "seq_DelayReq", "seq_PDelayReq", "seq_wrap_Sync", "seq_wrap_Announce", "seq_wrap_DelayReq"]);
+    rep.require(&["emitted_frame", "sync_followup_pair", "delay_req_resp_pair", "pdelay_req_resp_pair", "seq_Sync", "seq_Announce", "seq_DelayReq", "seq_PDelayReq", "seq_wrap_Sync", "seq_wrap_Announce", "seq_wrap_DelayReq", "request_frame_with_octets_after_the_message"]);
     if let Some(path) = replay {
         let v: serde_json::Value = serde_json::from_str(&std::fs::read_to_string(path).unwrap()).unwrap();
         if let Ok(p) = serde_json::from_value::<Params>(v["case"].clone()) {
